@@ -299,9 +299,16 @@ void instance_t::parse()
     }
   }
 
-  if (apply_stack.front().value.type() == typeid(optional<datetime_t>))
-    epoch = boost::get<optional<datetime_t> >(apply_stack.front().value);
-
+  // A file's year directives end with the file.  Each year entry saved the
+  // clock it replaced, so undoing them newest first leaves the clock where
+  // the oldest one still open found it (only the newest used to be undone: a
+  // file with two open `Y` directives left the first one in force in the
+  // file that included it).  The last entry is the one the caller pushed.
+  while (apply_stack.size() > 1) {
+    if (apply_stack.front().value.type() == typeid(optional<datetime_t>))
+      epoch = boost::get<optional<datetime_t> >(apply_stack.front().value);
+    apply_stack.pop_front();
+  }
   apply_stack.pop_front();
 
 #if TIMELOG_SUPPORT
